@@ -410,6 +410,40 @@ def faults():
             return m
         yield (f"name/clash-generated/{how}", clash_gen)
 
+    # ---- a signal resized after a slice / concatenation of it was made and its width looked at: the design as it
+    #      stands has an empty or out-of-range index, or a connection of the wrong width
+    def resized(kind, query):
+        def b():
+            m = base()
+            if kind == "slice-now-empty":
+                x, port_w = m.s4[2:4], 2
+                resize = lambda: setattr(m.s4, "width", 2)
+            elif kind == "slice-now-narrower":
+                x, port_w = m.s4[1:3], 2
+                resize = lambda: setattr(m.s4, "width", 2)
+            elif kind == "index-now-out-of-range":
+                x, port_w = m.s4[3], 1
+                resize = lambda: setattr(m.s4, "width", 3)
+            elif kind == "concat-now-wider":
+                x, port_w = h.Concat(m.s2, m.s1), 3
+                resize = lambda: setattr(m.s2, "width", 3)
+            else:   # slice of a concatenation whose part shrinks
+                x, port_w = h.Concat(m.s2, m.s1)[1:3], 2
+                resize = lambda: setattr(m.s2, "width", 1)
+            if query == "width":
+                assert x.width == port_w
+            elif query == "sliced-again":
+                assert x[0].width == 1
+            elif query == "top-bot" and hasattr(x, "top"):
+                assert x.top - x.bot >= 1
+            m.i = E(("a", port_w), ("b", 1))()(a=x, b=m.s1)
+            resize()
+            return m
+        return b
+    for kind in ("slice-now-empty", "slice-now-narrower", "index-now-out-of-range", "concat-now-wider", "slice-of-concat"):
+        for query in ("none", "width", "sliced-again", "top-bot"):
+            yield (f"resized/{kind}/queried-{query}", resized(kind, query))
+
 
 def sites(build, wrapfree=False):
     """the faulty module as top, and one / two levels below a clean parent"""
